@@ -27,6 +27,7 @@ RULE += (' Those files also carry a variable with missing cells but no missing c
 RULE += (' Packed variables of the netCDF4-written sources carry both packing attributes, add_offset only, or scale_factor only.')
 RULE += (' One case in fifty saves variables of more than a megabyte (a float32 matrix of 520-700 x 500 and a masked float64 record variable).')
 RULE += (' One plain case in six carries attribute values held as 0-d arrays of float32 / int32 / int16.')
+RULE += (' Numeric attribute values held as numpy float32 / int16 / int32 must read back in that type.')
 ASSUMPTIONS = [
     'classic-model flavours cannot hold int64/unsigned: such files are '
     'outside the domain there (must raise or round-trip)',
@@ -378,6 +379,26 @@ def _native(vs):
     return vs.dtype, vs.data
 
 
+def narrowed(a, b, prefix):
+    """numeric attribute values held as numpy float32 / int16 / int32 (array
+    or scalar) keep that type in every netCDF flavour; a value that comes
+    back wider was converted on the way"""
+    out = []
+    for k, v in a.items():
+        dt = getattr(v, 'dtype', None)
+        if dt is None or k not in b or np.dtype(dt).newbyteorder('=') not in (
+                np.dtype('f4'), np.dtype('i2'), np.dtype('i4')):
+            continue
+        gdt = getattr(b[k], 'dtype', None)
+        if gdt is None or np.dtype(gdt).newbyteorder('=') != \
+                np.dtype(dt).newbyteorder('='):
+            out.append('%sattribute %s was written as %s and reads back as '
+                       '%s (%r -> %r)' % (prefix, k, np.dtype(dt),
+                                          gdt if gdt is not None
+                                          else type(b[k]).__name__, v, b[k]))
+    return out
+
+
 def compare(before, after, res):
     if True:
         problems = []
@@ -388,6 +409,7 @@ def compare(before, after, res):
                                                      list(after.dims.items())))
         problems += snapshot.diff_attrs(before.attrs, after.attrs, 'global ',
                                         exact_type=False)
+        problems += narrowed(before.attrs, after.attrs, 'global ')
         ka = list(before.attrs)
         kb = list(after.attrs)
         if not problems and ka != kb:
@@ -406,4 +428,8 @@ def compare(before, after, res):
             problems += snapshot.check_var(
                 got, k, dims=vs.dims, data=ndata, mask=vs.mask,
                 attrs=exp_attrs, dtype=ndt, attr_ignore=ign)
+            problems += narrowed(
+                {ak: av for ak, av in vs.attrs.items() if ak not in ign and
+                 ak not in ('_FillValue', 'missing_value', 'fill_value')},
+                got.attrs, k + ': ')
         return problems
